@@ -57,7 +57,7 @@ def run(ctx):
     qres = engine.run_model([sx for _, sx in pairs], mode="quiet")
     qhist = {}
     for (q, sx), r in zip(pairs, qres):
-        k = {"EQ": "quiet", "OK": "has format op (outside the theorem)", "NE": "NOT quiet"}.get(r[0], r[0])
+        k = {"EQ": "quiet, no format op (C01_every_program_forgets)", "OK": "quiet, with format ops (C01_every_program_forgets_any)", "NE": "NOT quiet"}.get(r[0], r[0])
         qhist[k] = qhist.get(k, 0) + 1
         if r[0] == "NE":
             ctx.violation("the chain built for `%s` is not in its constructed state: the hypothesis of C01_engine_forgets does not hold for it" % q[:200], {"query": q, "kind": "not-quiet"})
